@@ -25,6 +25,7 @@ Smoke test of simnet usage (what one run does):
     simnet.run(main)
 """
 import asyncio
+import errno
 import itertools
 import json
 import logging
@@ -52,7 +53,11 @@ LEVEL_TEXT = (
     "interleaving of Connect / greeting / USER / PASS / QUIT / drop / idle timeout / handler error / server close / logout-task "
     "events (Closed under the global context), instantiated with the finally block and footprints extracted from today's "
     "server.py. C10_finally_guard_needed, C10_finally_logout_needed and C10_atomicity_needed show that the extracted facts are "
-    "load-bearing. The tie is bounded-exhaustive + crash-point + random histories over <= 3 sessions on the real server "
+    "load-bearing. The full property is REFUTED on the current source for one family of histories (finding F24, "
+    "C10_every_end_reaches_finally_refuted_F24, reproduced on simnet and on real loopback TCP): a QUIT pipelined behind commands "
+    "whose replies are still unwritten when the control connection fails never reaches the dispatcher's finally block, the session "
+    "keeps its slots until Server.close(); the theorems are the carved part (histories in which every dispatched QUIT / refused "
+    "greeting is followed by its end event - checked per history on the real server). The tie is bounded-exhaustive + crash-point + random histories over <= 3 sessions on the real server "
     "(simnet), counters read from the real objects after every event."
 )
 LEVEL_NOTE = (
@@ -67,6 +72,10 @@ TRUSTED = [
     "simnet (in-memory transports, virtual clock) drives the real aioftp.Server faithfully",
 ]
 ASSUMPTIONS = [
+    "the model's `Quit i` / refused `Greeting i` mean: dispatched AND the dispatcher left `await response_queue.join()`; on the real "
+    "server that holds unless the connection fails with >= 2 replies unacknowledged (finding F24); every other way of losing the "
+    "control connection on write (the n-th reply, the final reply of QUIT, a refused USER, the greeting 220/421, behind a write "
+    "speed limit) is exercised and ends the session",
     "modelled, not verified: user managers whose get_user, or notify_logout called from user(), really suspend (a notify_logout "
     "that suspends in the teardown task is inside the model: phase Closing, event LogoutRuns, and is exercised)",
     "under asyncio's FIFO scheduling the greeting task always runs before its dispatcher can end; the model also covers the "
@@ -75,6 +84,13 @@ ASSUMPTIONS = [
 
 PORT = 2121
 IDLE = 10
+WPAUSE = 60  # virtual seconds given to a server with a write speed limit to say everything it has queued
+KEY_ENDED = "c10-ended-session-holds-slot"
+# finding F24 (unchanged aioftp): QUIT pipelined behind commands whose replies are still unwritten when the control connection
+# fails: response_writer dies at the first reply it cannot write, the dispatcher - already in `await response_queue.join()` or
+# getting there - waits for ever for the replies behind it; its finally block never runs
+KEY_F24 = "c10-quit-behind-unwritten-replies-connection-fails"
+NOCODES = ("cmds_end", "cmds_wfault", "connect_wfault")  # how many replies still get out before the end is not a C10 matter
 
 # model event tags (Model/Counters.v event_of_sx)
 CONNECT, GREETING, USER, USERERR, PASS, OTHER, QUIT, DROP, IDLET, HERR, LOGOUT, SCLOSE, UBEGIN, UEND, PASSERR = range(15)
@@ -127,14 +143,56 @@ def cfg_sx(cfg, fin):
 
 
 # ----------------------------------------------------------------------------- actions -> model events
-def model_events(actions, gated=False):
+def quit_position(burst):
+    """1-based position of the reply to the first QUIT of a burst among the replies the burst produces (None: no QUIT reached)"""
+    m = 0
+    for verb, arg in burst:
+        if arg == "boom":
+            return None
+        m += 1
+        if verb == "QUIT":
+            return m
+    return None
+
+
+def ended_key(a):
+    """the replay key of 'control connection closed, session still registered' left behind by action a: the input shape of
+    finding F24 (a QUIT with at least one earlier reply of the same burst unwritten when the connection fails: the failing
+    write is that of a reply BEFORE the final one, or the peer ends the connection while >= 2 replies incl. QUIT's are due),
+    the generic key otherwise (QUIT alone, the final reply itself failing, no QUIT at all, the greeting, any other action)"""
+    if a[0] in ("cmds_end", "cmds_wfault"):
+        q = quit_position(a[2])
+        if q is not None and q >= 2 and (a[0] == "cmds_end" or a[3] < q):
+            return KEY_F24
+    return KEY_ENDED
+
+
+def model_events(actions, gated=False, stuck=None):
     """returns (events, boundaries): boundaries[k] = index of the last model event of action k.
     gated: the logout notification a session's teardown starts is held open by the harness (GatedUserManager): the model's
     LogoutRuns i happens only at the action ("release", i) -- until then the session is in the model's Closing phase"""
     evs, bounds = [], []
     n = 0
-    for a in actions:
+    stuck = dict(stuck or {})  # action index -> session left behind by it in the way of finding F24 (seen on the real server)
+    stuck_sessions = set()
+    for k_act, a in enumerate(actions):
         kind = a[0]
+        if kind in ("cmds", "cmds_end", "cmds_wfault", "drop", "reset", "dropmid", "idle") and a[1] in stuck_sessions:
+            # nothing reaches a dispatcher that waits for its reply queue for ever; only Server.close() ends it
+            evs.append([OTHER, 99, ""])
+            bounds.append(len(evs) - 1)
+            continue
+        if k_act in stuck and kind in ("cmds_end", "cmds_wfault") and stuck[k_act] == a[1]:
+            # F24 as the implementation behaves: everything before QUIT was carried out, QUIT was dispatched, and the
+            # session stays registered with whatever it holds
+            for c in a[2]:
+                if c[0] == "QUIT":
+                    break
+                evs.append(cmd_event(a[1], c))
+            evs.append([OTHER, 99, ""])
+            bounds.append(len(evs) - 1)
+            stuck_sessions.add(a[1])
+            continue
         if kind == "release":
             evs.append([LOGOUT, a[1], ""])
             bounds.append(len(evs) - 1)
@@ -168,6 +226,15 @@ def model_events(actions, gated=False):
             evs.append([LOGOUT, i, ""])
         elif kind in ("drop", "reset", "dropmid"):
             evs += [[DROP, a[1], ""], [LOGOUT, a[1], ""]]
+        elif kind in ("cmds_end", "cmds_wfault"):
+            # the commands are sent and the control connection fails while their replies are pending: seen by the reader
+            # (EOF / RST k loop iterations or t seconds later) or by the WRITER (the n-th reply cannot be written).  However
+            # many of the commands were carried out, the session is over afterwards and holds nothing
+            evs += [cmd_event(a[1], c) for c in a[2]] + [[DROP, a[1], ""], [LOGOUT, a[1], ""]]
+        elif kind == "connect_wfault":
+            # the greeting (220 or 421) cannot be written
+            evs += [[CONNECT, 0, ""], [GREETING, n, ""], [LOGOUT, n, ""], [DROP, n, ""], [LOGOUT, n, ""]]
+            n += 1
         elif kind == "idle":
             evs += [[IDLET, a[1], ""], [LOGOUT, a[1], ""]]
         elif kind == "close":
@@ -281,6 +348,7 @@ def run_impl(cfg, actions, segment=False):
     lg.setLevel(logging.WARNING)
     loop_errors = []
     snaps = []
+    zombie_log = []  # (action index, session, key)
 
     async def main(net):
         net.loop.set_exception_handler(lambda loop, c: loop_errors.append(repr(c.get("exception") or c.get("message"))))
@@ -299,7 +367,52 @@ def run_impl(cfg, actions, segment=False):
             return None
 
         um = GatedUserManager(users, session_of_task) if gated else BoomUserManager(users)
-        server = aioftp.Server(um, maximum_connections=cfg["limit"], idle_timeout=IDLE)
+        wl = cfg.get("wlimit")  # [server-wide, per connection] write speed limit in bytes / second: replies leave slowly
+        kw = {}
+        if wl:
+            kw = {"write_speed_limit": wl[0], "write_speed_limit_per_connection": wl[1]}
+            orig_settle = net.settle
+
+            async def settle_slow(rounds=3):
+                # quiescence of a throttled server needs (virtual) time: the queued replies sleep in the throttle
+                await orig_settle(rounds)
+                await asyncio.sleep(WPAUSE)
+                await orig_settle(rounds)
+
+            net.settle = settle_slow
+        server = aioftp.Server(um, maximum_connections=cfg["limit"], idle_timeout=cfg.get("idle", IDLE), **kw)
+        sts = {}  # client port -> the server's transport of that control connection
+        zombies = set()
+        current = [None]
+        armed = []  # a write fault waiting for the next accepted connection
+
+        def arm(st, nth, exc_kind):
+            """the nth write on the server's side of this control connection fails the way a selector transport fails:
+            the transport is closing at once, connection_lost(exc) follows on the next loop iteration, the data is
+            dropped, the peer sees a reset; drain() of this and of every later write raises"""
+            orig_write = st.write
+            seen = [0]
+
+            def write(data):
+                seen[0] += 1
+                if seen[0] == nth and not st.closing and not st.closed:
+                    st.closing = True
+                    st.out.push("rst")
+                    exc = (BrokenPipeError(errno.EPIPE, "Broken pipe") if exc_kind == "pipe"
+                           else ConnectionResetError(errno.ECONNRESET, "Connection reset by peer"))
+                    net.loop.call_soon(st._connection_lost, exc)
+                    return
+                orig_write(data)
+
+            st.write = write
+
+        def on_connect(ct, st):
+            if st.listener_port == PORT:
+                sts[ct.get_extra_info("sockname")[1]] = st
+                if armed:
+                    arm(st, *armed.pop())
+
+        net.on_connect = on_connect
         await server.start("127.0.0.1", PORT)
         closed = [False]
         close_tasks = []
@@ -358,7 +471,29 @@ def run_impl(cfg, actions, segment=False):
                     break
             return user
 
+        def ended_but_registered():
+            """the property, on the real objects: a session whose control connection is gone (the server's transport is
+            closed, nothing is runnable any more) has ended - it must not be registered or hold a slot"""
+            bad = []
+            for j, r in enumerate(raws):
+                st = sts.get(r.writer.transport.get_extra_info("sockname")[1])
+                c = conn_of(r)
+                if st is not None and st.closed and c is not None and j not in zombies:
+                    zombies.add(j)  # reported once, at the action that left it behind
+                    key = ended_key(current[0]) if current[0] is not None and len(current[0]) > 1 and current[0][1] == j else KEY_ENDED
+                    zombie_log.append((len(snaps), j, key))
+                    uidx = users.index(c.user) if c.future.user.done() else None
+                    bad.append((key,
+                                f"session {j}: its control connection is closed and the server is quiescent, yet the session is still "
+                                f"registered (server slot held: {bool(c.acquired)}, user slot held: user#{uidx}); server counter "
+                                f"{server.available_connections.value} of {server.available_connections.maximum_value}"))
+            return bad
+
+        def send_burst(raw, cmds):
+            raw.writer.write("".join(f"{v} {x}".rstrip() + "\r\n" for v, x in cmds).encode())
+
         def snapshot(codes, extra_bad):
+            extra_bad = extra_bad + ended_but_registered()
             sess = []
             for r in raws:
                 c = conn_of(r)
@@ -379,6 +514,7 @@ def run_impl(cfg, actions, segment=False):
 
         for a in actions:
             kind = a[0]
+            current[0] = a
             codes, bad = [], []
             if kind == "connect":
                 full = cfg["limit"] is not None and count_admitted() >= cfg["limit"]
@@ -423,6 +559,44 @@ def run_impl(cfg, actions, segment=False):
                         bad.append(("c10-admission-530", f"USER {a[2][0][1]} answered {codes}, expected 530"))
                     if expect == "ok" and codes not in (["230"], ["331"]):
                         bad.append(("c10-admission-530", f"USER {a[2][0][1]} answered {codes}, expected 230/331"))
+            elif kind == "connect_wfault":
+                armed.append((1, a[1]))
+                raw = await Raw.connect(net, PORT)
+                raws.append(raw)
+                await raw.drain_replies()
+                del armed[:]
+            elif kind == "cmds_wfault":
+                raw = raws[a[1]]
+                st = sts.get(raw.writer.transport.get_extra_info("sockname")[1])
+                if conn_of(raw) is not None and st is not None:
+                    arm(st, a[3], a[4])
+                    send_burst(raw, a[2])
+                await raw.drain_replies()
+            elif kind == "cmds_end":
+                raw = raws[a[1]]
+                how, k, t = a[3], a[4], a[5]
+                if conn_of(raw) is not None:
+                    if wl and t:
+                        # fresh throttle memory (public setter): the first reply of the burst leaves at once, every later
+                        # one sleeps len(previous replies) / limit seconds in the throttle before it is written
+                        if wl[0]:
+                            server.throttle.write.limit = wl[0]
+                        if wl[1]:
+                            conn_of(raw).command_connection.throttles["server_per_connection"].write.limit = wl[1]
+                    send_burst(raw, a[2])
+                    for _ in range(k):  # the end lands k loop iterations ...
+                        await asyncio.sleep(0)
+                    if t:  # ... or t seconds into whatever the commands have set off
+                        await asyncio.sleep(t)
+                if how == "reset":
+                    raw.writer.transport.abort()
+                elif how == "dropmid":
+                    if conn_of(raw) is not None:
+                        raw.writer.write(b"US")
+                    raw.close()
+                else:
+                    raw.close()
+                await raw.drain_replies()
             elif kind == "drop":
                 raws[a[1]].close()
                 await net.settle()
@@ -536,8 +710,13 @@ def run_impl(cfg, actions, segment=False):
             # CPython 3.12.1 StreamReaderProtocol's done-callback calls task.exception() on the dispatcher
             # task that Server.close() cancelled; same with real sockets, nothing to do with aioftp
             pass
+        elif e.startswith(("ConnectionResetError(", "BrokenPipeError(")):
+            # "Task exception was never retrieved": the response_writer task that failed on the lost connection while the
+            # dispatcher was already leaving through `await response_queue.join()`; log noise, not an accounting matter
+            pass
         else:
             problems.append(("unexpected-loop-error", e))
+    run_impl.zombies = list(zombie_log)
     return snaps, problems
 
 
@@ -593,16 +772,21 @@ class _Capped:
             self.ctx.count("disagreements_not_recorded", 1)
 
 
-def check_history(ctx, cfg, actions, msnaps, bounds, segment, stream):
+def check_history(ctx, cfg, actions, msnaps, bounds, segment, stream, fin=None):
     ctx.traces_impl += 1
     ctx = _Capped(ctx)
     snaps, problems = run_impl(cfg, actions, segment)
+    stuck = {k: j for (k, j, key) in run_impl.zombies if key == KEY_F24}
+    if stuck and fin is not None:
+        # the implementation showed finding F24 on this history: the model is run on the events as they really happened
+        evs, bounds = model_events(actions, gated=bool(cfg.get("gated")), stuck=stuck)
+        msnaps = ctx.model([(0, [cfg_sx(cfg, fin), evs])])[0]
     replay = {"cfg": cfg, "actions": actions, "segment": segment}
     ok = True
     nsess = 0
     prev = -1
     for k, a in enumerate(actions):
-        if a[0] in ("connect", "connect_close"):
+        if a[0] in ("connect", "connect_close", "connect_wfault"):
             nsess += 1
         if a[0] == "connect_many":
             nsess += a[1]
@@ -612,8 +796,8 @@ def check_history(ctx, cfg, actions, msnaps, bounds, segment, stream):
         prev = bounds[k]
         # 502 (a command this model does not know) is queued by the dispatcher itself, ahead of the reply of a
         # handler task that has not run yet: its position in a pipelined burst is not a C10 matter
-        rview = (real["srv"], real["users"], real["sessions"], [c for c in real["codes"] if c != "502"])
-        mview = (msrv, mucs, msess, [c for c in mcodes if c != "502"])
+        rview = (real["srv"], real["users"], real["sessions"], [c for c in real["codes"] if c != "502" and a[0] not in NOCODES])
+        mview = (msrv, mucs, msess, [c for c in mcodes if c != "502" and a[0] not in NOCODES])
         ctx.case((stream, json.dumps(cfg), json.dumps(actions[: k + 1]), segment))
         if rview != mview:
             ok = False
@@ -823,6 +1007,88 @@ def simultaneous():
     return out
 
 
+WRITE_PREFIXES = [
+    [("connect",), ("cmds", 0, [("USER", "b")])],                                   # logged in
+    [("connect",), ("cmds", 0, [("USER", "a")])],                                   # user slot taken, password pending
+    [("connect",)],                                                                 # server slot only
+    [("connect",), ("cmds", 0, [("USER", "a")]), ("cmds", 0, [("PASS", "pw")])],    # logged in with password
+]
+# bursts whose replies are pending when the connection fails: the final reply of QUIT, a refused USER (530), an accepted one
+WRITE_BURSTS = [
+    [("QUIT", "")],
+    [("USER", "zz")],
+    [("USER", "b"), ("QUIT", "")],
+    [("USER", "zz"), ("QUIT", "")],
+    [("NOOP", ""), ("QUIT", "")],
+    [("USER", "a"), ("PASS", "pw"), ("QUIT", "")],
+    [("USER", "b")],
+    [("PASS", "bad"), ("USER", "a")],
+]
+WRITE_TAIL = lambda n: [("connect",), ("cmds", n, [("USER", "b")]), ("cmds", n, [("QUIT", "")])]
+
+
+def replies_of(burst):
+    """how many replies the burst is certain to produce: one per command up to and including the first QUIT, none
+    from an injected handler error on"""
+    m = 0
+    for verb, arg in burst:
+        if arg == "boom":
+            break
+        m += 1
+        if verb == "QUIT":
+            break
+    return m
+
+
+def write_side(kmax, thorough):
+    """session ends classified by where the WRITER fails, not only by where the reader sees EOF / RST:
+    (1) the n-th reply of a burst (or the greeting, 220 as well as 421) cannot be written: ConnectionResetError /
+        BrokenPipeError surfaces in response_writer, possibly while the dispatcher already waits for the queue to drain;
+    (2) the peer resets / closes the connection k loop iterations after the burst was sent, for every k up to kmax (the
+        whole processing of a burst takes fewer iterations): the end lands before, between and after the replies;
+    afterwards a fresh session must be admitted and logged in, with and without a second session that stays."""
+    out = []
+    for pi, prefix in enumerate(WRITE_PREFIXES):
+        for second in (False, True):
+            if second and pi >= 2 and not thorough:
+                continue
+            pre = list(prefix) + ([("connect",), ("cmds", 1, [("USER", "b")])] if second else [])
+            n = 2 if second else 1
+            post = ([("cmds", 1, [("USER", "a")])] if second else []) + WRITE_TAIL(n)
+            for burst in WRITE_BURSTS:
+                for nth in range(1, replies_of(burst) + 1):
+                    for exc in ("reset", "pipe"):
+                        out.append(pre + [("cmds_wfault", 0, burst, nth, exc)] + post)
+                if second and not thorough:
+                    continue
+                for how in ("reset", "drop") + (("dropmid",) if thorough else ()):
+                    for k in range(kmax + 1):
+                        out.append(pre + [("cmds_end", 0, burst, how, k, 0)] + post)
+    # the greeting itself: admitted (220) and refused (421: the dispatcher is already waiting for the queue to drain)
+    for admitted in (0, 1, 2):
+        for exc in ("reset", "pipe"):
+            pre = []
+            for j in range(admitted):
+                pre += [("connect",), ("cmds", j, [("USER", "b")])]
+            out.append(pre + [("connect_wfault", exc), ("connect",), ("drop", 0), ("connect",), ("connect_wfault", exc), ("connect",)])
+    return out
+
+
+def write_side_slow(thorough):
+    """the same with a write speed limit (server-wide or per connection): every reply after the first sleeps in the
+    throttle, the peer resets / closes t seconds after the burst - while replies are queued behind the throttle"""
+    out = []
+    bursts = [b for b in WRITE_BURSTS if len(b) >= 2] + [[("NOOP", ""), ("NOOP", ""), ("USER", "b")]]
+    for pi, prefix in enumerate(WRITE_PREFIXES[:4 if thorough else 3]):
+        for burst in bursts:
+            for how in ("reset", "drop", "dropmid"):
+                for t in (0.05, 0.4, 1.0, 2.0, 4.0) + ((0.2, 0.7, 1.5, 3.0, 8.0) if thorough else ()):
+                    out.append(list(prefix) + [("cmds_end", 0, burst, how, 0, t)] + WRITE_TAIL(1))
+            for nth in range(1, replies_of(burst) + 1):
+                out.append(list(prefix) + [("cmds_wfault", 0, burst, nth, "reset" if nth % 2 else "pipe")] + WRITE_TAIL(1))
+    return out
+
+
 def random_history(rng, max_sessions=3, length=14):
     acts = []
     n = 0
@@ -841,6 +1107,10 @@ def random_history(rng, max_sessions=3, length=14):
             continue
         i = rng.randrange(n)
         r = rng.random()
+        if r < 0.07 and n < max_sessions and not closed:
+            acts.append(("connect_wfault", rng.choice(["reset", "pipe"])))  # the greeting cannot be written
+            n += 1
+            continue
         if r < 0.62:
             cmds = []
             for _ in range(rng.choice([1, 1, 1, 2, 3])):
@@ -853,7 +1123,13 @@ def random_history(rng, max_sessions=3, length=14):
                     cmds.append(("NOOP", ""))
                 else:
                     cmds.append(("QUIT", ""))
-            acts.append(("cmds", i, cmds))
+            q = rng.random()
+            if q < 0.12 and replies_of(cmds) >= 1:  # the connection fails ON WRITE at one of the replies
+                acts.append(("cmds_wfault", i, cmds, rng.randint(1, replies_of(cmds)), rng.choice(["reset", "pipe"])))
+            elif q < 0.24:  # the peer ends the connection while the replies are pending
+                acts.append(("cmds_end", i, cmds, rng.choice(["reset", "reset", "drop", "dropmid"]), rng.randint(0, 9), 0))
+            else:
+                acts.append(("cmds", i, cmds))
         elif r < 0.92:
             acts.append((rng.choice(["drop", "drop", "reset", "dropmid", "idle"]), i))
         elif not closed:
@@ -897,7 +1173,14 @@ def correspondence(ctx, budget=None):
         "other session's end and the releases are placed in every order inside the window (sequences up to length 2 exhaustively, "
         "length 3 sampled; the model's Closing phase / LogoutRuns event), and with the stock manager Server.close() k = 0..14 loop "
         "iterations after QUIT/EOF/RST, optionally a second close() k2 iterations after the first was started; afterwards the SAME "
-        "Server object is started again and a fresh session must be admitted as the counters say; configurations: server limit {None,1,2} x limit(a) {None,1,2} x limit(b) {None,1,2} x user lists "
+        "Server object is started again and a fresh session must be admitted as the counters say; (f) the control connection failing ON "
+        "WRITE wherever a reply is pending: the n-th reply of a burst (final reply of QUIT, refused USER, accepted USER/PASS) or the "
+        "greeting (220 and 421) cannot be written (the server's transport fails with ConnectionResetError / BrokenPipeError at that "
+        "write, as a selector transport does), the peer resets / closes k = 0..11 loop iterations after the burst was sent, and - "
+        "with a server-wide or per-connection write speed limit that keeps replies queued behind the throttle - t seconds after "
+        "it; afterwards a fresh session must be admitted and logged in; the same actions appear in the random histories; a session "
+        "whose control connection is closed at quiescence must not be registered or hold a slot (key "
+        "c10-ended-session-holds-slot); configurations: server limit {None,1,2} x limit(a) {None,1,2} x limit(b) {None,1,2} x user lists "
         "{[a,b], [a,anonymous], [anonymous,a]} plus limit 0. One evaluation = one (configuration, history prefix): the real counter "
         "objects, session flags and reply codes compared with the model and the conservation equations evaluated on the real "
         "objects; non-trivial = distinct (configuration, prefix)."
@@ -960,10 +1243,26 @@ def correspondence(ctx, budget=None):
     for limit, acts in simultaneous():
         for us, la, lb in (("ab", 1, None), ("a_anon", None, 2)) if thorough else (("ab", 1, None),):
             jobs.append(("simultaneous", make_cfg(limit, us, la, lb), acts, False))
+    # (f) the control connection fails ON WRITE / while replies are pending
+    ws = write_side(24 if thorough else 11, thorough)
+    for c in [make_cfg(1, "ab", 1, 1)] + ([make_cfg(2, "ab", 1, 2), make_cfg(2, "a_anon", 1, 1)] if thorough else [make_cfg(2, "ab", 1, 2)]):
+        for s in ws if (thorough or c["limit"] == 1) else ws[::3]:
+            jobs.append(("write-side", c, s, False))
+    wss = write_side_slow(thorough)
+    slow_cfgs = [dict(make_cfg(1, "ab", 1, 1), wlimit=[20, None], idle=100000), dict(make_cfg(1, "ab", 1, 1), wlimit=[None, 25], idle=100000)]
+    if thorough:
+        slow_cfgs.append(dict(make_cfg(2, "a_anon", 1, 1), wlimit=[40, 15], idle=100000))
+    for ci, c in enumerate(slow_cfgs):
+        for s in wss if (thorough or ci == 0) else wss[::2]:
+            jobs.append(("write-side-throttled", c, s, False))
+    ctx.count("write_side_histories", sum(1 for j in jobs if j[0] == "write-side"))
+    ctx.count("write_side_throttled_histories", sum(1 for j in jobs if j[0] == "write-side-throttled"))
     ctx.count("simultaneous_histories", sum(1 for j in jobs if j[0] == "simultaneous"))
     ctx.count("teardown_gated_histories", sum(1 for j in jobs if j[0] == "teardown-gated"))
     ctx.count("teardown_sweep_histories", sum(1 for j in jobs if j[0] == "teardown-sweep"))
 
+    # the short, systematic write-side histories are judged before the long random ones (smaller replays first)
+    jobs.sort(key=lambda j: 0 if j[0].startswith("write-side") else 1)
     jobs = [(st, c, tojson(a), seg) for (st, c, a, seg) in jobs]
     # model, in one batch
     cases, metas = [], []
@@ -978,7 +1277,7 @@ def correspondence(ctx, budget=None):
         for a in actions:
             k = a[0] if a[0] != "cmds" else ("cmd:" + a[2][0][0] if len(a[2]) == 1 else "cmd:pipelined-burst")
             kinds[k] = kinds.get(k, 0) + 1
-        check_history(ctx, cfg, actions, msnaps, bounds, seg, stream)
+        check_history(ctx, cfg, actions, msnaps, bounds, seg, stream, fin)
         if len(xcheck) < 40 and stream in ("crash-points", "random") and len(actions) < 9:
             xcheck.append((0, case[1], msnaps))
         if stream == "random":
@@ -991,6 +1290,89 @@ def correspondence(ctx, budget=None):
     ctx.extra["vm_compute_crosscheck"] = {"cases": len(xcheck), "agree": ok}
     if not ok:
         ctx.obligation_broken("extraction-crosscheck", out)
+
+
+F24_WITNESSES = {
+    # (cfg extras, history): the connection fails ON WRITE / is reset while QUIT's reply is queued behind another one
+    "write-fails": ({}, [("connect",), ("cmds", 0, [("USER", "b")]), ("cmds_wfault", 0, [("NOOP", ""), ("QUIT", "")], 1, "reset"),
+                        ("connect",)]),
+    "throttled-reset": ({"wlimit": [20, None], "idle": 100000},
+                        [("connect",), ("cmds", 0, [("USER", "b")]), ("cmds_end", 0, [("NOOP", ""), ("NOOP", ""), ("QUIT", "")], "reset", 0, 0.4),
+                         ("connect",)]),
+}
+
+
+def loopback_f24():
+    """real loopback TCP, real clock, unchanged asyncio: NOOP NOOP QUIT pipelined behind a write speed limit, the peer
+    resets 0.3 s later.  Informative only (never decides the outcome): returns what the server holds 2.5 s afterwards"""
+    import socket
+    import struct
+
+    async def main():
+        user = aioftp.User("foo", maximum_connections=1)
+        server = aioftp.Server([user], maximum_connections=1, write_speed_limit=20, path_io_factory=aioftp.MemoryPathIO)
+        loop = asyncio.get_running_loop()
+        loop.set_exception_handler(lambda l, c: None)
+        await server.start("127.0.0.1", 0)
+        try:
+            sock = socket.socket()
+            sock.setblocking(False)
+            await loop.sock_connect(sock, (server.server_host, server.server_port))
+            r, w = await asyncio.open_connection(sock=sock)
+            await asyncio.wait_for(r.readline(), 5)
+            w.write(b"USER foo\r\n")
+            await asyncio.wait_for(r.readline(), 5)
+            w.write(b"NOOP\r\nNOOP\r\nQUIT\r\n")
+            await w.drain()
+            await asyncio.sleep(0.3)
+            sock.setsockopt(socket.SOL_SOCKET, socket.SO_LINGER, struct.pack("ii", 1, 0))
+            w.transport.abort()
+            for _ in range(25):
+                await asyncio.sleep(0.1)
+                if not server.connections:
+                    break
+            return {"sessions_registered_after_reset": len(server.connections), "server_slots_free": server.available_connections.value,
+                    "user_slots_free": server.user_manager.available_connections[user].value, "of": 1}
+        finally:
+            await asyncio.wait_for(server.close(), 10)
+
+    lg = logging.getLogger("aioftp.server")
+    old = lg.level
+    lg.setLevel(logging.CRITICAL)
+    try:
+        return asyncio.run(main())
+    finally:
+        lg.setLevel(old)
+
+
+def known(ctx):
+    """re-run the witnesses of finding F24 on the real code (simnet; real loopback TCP as information)"""
+    fid = ctx.match_known("", {"key": KEY_F24})
+    for name, (extra, actions) in F24_WITNESSES.items():
+        cfg = dict(make_cfg(1, "ab", 1, 1), **extra)
+        actions = tojson(actions)
+        snaps, _ = run_impl(cfg, actions)
+        hit = [(k, j) for (k, j, key) in run_impl.zombies if key == KEY_F24]
+        wfile = core.VERIF / "evidence" / "replay" / f"C10-witness-F24-{name}.json"
+        wfile.parent.mkdir(parents=True, exist_ok=True)
+        txt = json.dumps({"property": ID, "kind": "known-finding-witness",
+                          "replay": {"key": KEY_F24, "cfg": cfg, "actions": actions, "segment": False}}, indent=1)
+        if not wfile.exists() or wfile.read_text() != txt:
+            wfile.write_text(txt)
+        greeting_after = snaps[len(actions) - 1]["codes"]
+        ctx.extra.setdefault("witness_replays", {})[name] = {
+            "session_left_registered": bool(hit), "server_counter_after": snaps[len(actions) - 1]["srv"],
+            "greeting_of_next_client": greeting_after, "replay": f"evidence/replay/{wfile.name}"}
+        if hit and fid:
+            ctx.known_reproduced(fid, f"witness {name}: peer gone, session still registered, next client answered {greeting_after} at limit 1")
+        elif hit and not fid:
+            ctx.violation(f"witness {name}: session left registered after its connection failed", {"key": KEY_F24, "cfg": cfg, "actions": actions, "segment": False})
+        elif fid:
+            ctx.notes.append(f"known finding {fid}: witness {name} no longer reproduces on the implementation (fixed?)")
+    try:
+        ctx.extra["loopback_replay_F24"] = loopback_f24()
+    except Exception as e:  # the real-socket driver must never decide the outcome
+        ctx.extra["loopback_replay_F24"] = f"not run: {e!r}"
 
 
 def search(ctx):
